@@ -34,7 +34,7 @@ def main():
     claimed = set(P.PLAN) | set(p for p, _ in NA)
     for p in ALL:
         if p not in claimed:
-            na.append(dict(property_id=p, reason='not yet claimed: machinery for this property is still being built (see DESIGN.md section 3)'))
+            na.append(dict(property_id=p, reason='not claimed (see DESIGN.md)'))
     m = dict(
         version=1,
         setup_cmd=P.SETUP_CMD,
